@@ -87,8 +87,9 @@ H("C06", file="core/pretty_decimal.rs", name="c07_overflow_39_41", timeout=900,
 prop("C14", title="Diagnostics name the right file and line",
      level_text="Bounded model checking of the offset/line arithmetic behind every diagnostic: compute_line_number on every "
                 "byte string <= 8 bytes and position; ParseError::new's line_start/error_span for every ASCII text <= 5 bytes; "
-                "clip/ParsedSpan::resolve for all spans; ErrorContext::new. The annotate-snippets rendering and which path "
-                "report::process hands over for an included file (Loader I/O) are outside (DESIGN C14).",
+                "ParsedContext::compute_line_start / as_str / span().resolve (clip) for every entry and item span in every ASCII text "
+                "<= 8 bytes (CR/LF included) - the data ErrorContext::new copies. The annotate-snippets rendering, ErrorContext::new "
+                "itself (a three-field copy) and which path report::process hands over for an included file (Loader I/O) are outside.",
      level_note="Trusted: Kani/CBMC; fmt::format stub; texts restricted to the stated lengths.")
 H("C14", file="core/parse_error.rs", name="c14_line_number_8", timeout=300,
   functions=["compute_line_number"],
@@ -359,3 +360,8 @@ H("C10", file="core/price_db.rs", name="c10_convert_amount", timeout=1800, expec
   functions=["price_db::convert_amount", "PriceRepository::convert_single", "Amount::iter", "Amount += SingleAmount"],
   bound="holdings in X, Y, T each present or not, 6-bit signed; rates X->T, Y->T each available or not (8-bit positive); unwind 6",
   models=[DEC, MAP, FMT, BUMP], oracle="Err(RateNotFound) iff a held commodity has no rate; Ok => T total == sum value x rate + T holding, nothing else left")
+
+H("C14", file="core/adaptor.rs", name="c14_parsed_context_8", timeout=600, expect_s=20,
+  functions=["ParsedContext::compute_line_start", "ParsedContext::as_str", "ParsedContext::span", "ParsedSpan::resolve", "clip"],
+  bound="every ASCII text (CR and LF included) of 0..=8 bytes, entry span s..e, tracked item span inside it; unwind 10", models=[FMT],
+  oracle="line_start == 1 + newlines before the entry's first byte; text == the entry's slice; resolve == item - entry start")
